@@ -1,0 +1,1 @@
+//! Hooks owned by property C20 (feature `verif-hooks`).
